@@ -312,4 +312,55 @@ def cells_vs_quadrature(inp):
 
 
 # thorough tier (bounded native sweeps): (function, inputs, obligation of the open finding it reproduces or None)
-THOROUGH = [('independent_boson', {}, None), ('svd_sweep_parameters', {}, None), ('node_array_operations', {}, None), ('memory_time_parsing', {}, None)]
+def create_delta_spec(inp):
+    """util.create_delta against its contract, element by element, for every scrambling the library uses and random others, shapes with
+    dimensions 1..4 (including different dimensions on different axes) and random complex content; increase_list_of_index as the
+    mixed-radix successor"""
+    import itertools
+    from oqupy import util
+    bad = []
+    rng = np.random.default_rng(11)
+    cases = [(2, [1, 0, 0, 1]), (2, [1, 1, 0]), (2, [0, 1, 1, 0]), (2, [0, 1, 0]), (3, [0, 1, 2, 2]), (1, [0, 0]), (2, [1, 0]), (3, [2, 0, 1, 1]), (1, [0]),
+             (4, [3, 1, 0, 2, 2])]
+    for r, scr in cases:
+        for trial in range(6):
+            dims = [int(x) for x in rng.integers(1, 5, size=r)]
+            t = rng.normal(size=dims) + 1j * rng.normal(size=dims)
+            try:
+                got = util.create_delta(t, list(scr))
+            except Exception as e:
+                bad.append({'scrambling': scr, 'shape': dims, 'exception': repr(e)})
+                continue
+            want_shape = tuple(dims[i] for i in scr)
+            if got.shape != want_shape:
+                bad.append({'scrambling': scr, 'shape': dims, 'result shape': list(got.shape), 'required': list(want_shape)})
+                continue
+            want = np.zeros(want_shape, dtype=t.dtype)
+            for b in itertools.product(*[range(n) for n in dims]):
+                want[tuple(b[i] for i in scr)] = t[b]
+            if not np.array_equal(got, want):
+                j = tuple(int(x) for x in np.argwhere(got != want)[0])
+                bad.append({'scrambling': scr, 'shape': dims, 'first differing element': list(j), 'got': complex(got[j]), 'required': complex(want[j])})
+    for shape, index in (([2, 3], 1), ([2, 3], 2), ([2, 3, 4], 3), ([2, 3, 4], 0), ([2, 3, 4], 1), ([2, 3], -1)):
+        t = rng.normal(size=shape)
+        keep = t.copy()
+        got = util.add_singleton(t, index)
+        want = list(shape)
+        want.insert(index, 1)
+        if list(got.shape) != want or list(t.shape) != shape or got is t or np.shares_memory(got, t) or not np.array_equal(got.reshape(shape), keep):
+            bad.append({'add_singleton': shape, 'index': index, 'result shape': list(got.shape), 'required': want, 'argument shape afterwards': list(t.shape),
+                        'shares memory with the argument': bool(np.shares_memory(got, t))})
+    for shape in ([2, 3], [1, 1, 2], [3], [2, 1, 3, 2]):
+        a = [0] * len(shape)
+        seen = [tuple(a)]
+        while util.increase_list_of_index(a, shape):
+            seen.append(tuple(a))
+            if len(seen) > 200:
+                break
+        want = list(itertools.product(*[range(n) for n in shape]))
+        if seen != want:
+            bad.append({'increase_list_of_index': shape, 'visited': len(seen), 'required': len(want)})
+    return {'violates': bool(bad), 'detail': bad[:4]}
+
+
+THOROUGH = [('independent_boson', {}, None), ('svd_sweep_parameters', {}, None), ('node_array_operations', {}, None), ('memory_time_parsing', {}, None), ('create_delta_spec', {}, None)]
